@@ -8,7 +8,10 @@ Arguments ENone {A}. Arguments EReject {A}. Arguments EVal {A}.
 
 Inductive case :=
 | CRange (now : Z) (startp endp sincep : option bytes) (obs : option (Z * Z)) (ex : expect (Z * Z))
-| CStep (param : option bytes) (start end_ : Z) (obs : option Z) (ex : expect Z).
+| CStep (param : option bytes) (start end_ : Z) (obs : option Z) (ex : expect Z)
+(** the `query` command run with these flags against a daemon with one container: the wall clock before / after the run, and
+    the (since, until) seconds the daemon was asked for (None: the command failed) *)
+| CCmd (now_lo now_hi : Z) (startp endp sincep stepp : option bytes) (obs : option (Z * Z)) (ex : expect (Z * Z)).
 
 Definition pair_eqb (a b : Z * Z) := (fst a =? fst b) && (snd a =? snd b).
 
@@ -41,10 +44,46 @@ Definition judge (c : case) : bool * bool * Z :=
        | EVal v, Some o => v =? o
        | _, _ => false
        end, match parse_step p s e with DUnmodelled => 1000 | _ => 0 end)
+  | CCmd lo hi sp ep sn stp obs ex =>
+      (* the resolved range is handed to the engine unchanged; a log query asks each container for the range truncated to whole
+         seconds.  The clock is read somewhere between lo and hi, and the resolved bounds are monotone in it. *)
+      let r1 := parse_time_range TimeFmt.parse_ts lo sp ep sn in
+      let r2 := parse_time_range TimeFmt.parse_ts hi sp ep sn in
+      (match r1, r2 with
+       | ROk' s1 e1, ROk' s2 e2 =>
+           match parse_step stp s1 e1, parse_step stp s2 e2 with
+           | DOk _, DOk _ =>
+               match obs with
+               | Some (a, b) => (s1 / 1000000000 <=? a) && (a <=? s2 / 1000000000) && (e1 / 1000000000 <=? b) && (b <=? e2 / 1000000000)
+               | None => false
+               end
+           | DErr, DErr => match obs with None => true | Some _ => false end
+           | _, _ => true
+           end
+       | RErr, RErr => match obs with None => true | Some _ => false end
+       | _, _ => true
+       end,
+       match ex, obs with
+       | ENone, _ => true
+       | EReject, None => true
+       | EVal v, Some o => pair_eqb v o
+       | _, _ => false
+       end,
+       match r1, r2 with
+       | ROk' s1 e1, ROk' s2 e2 => match parse_step stp s1 e1, parse_step stp s2 e2 with DOk _, DOk _ | DErr, DErr => 0 | _, _ => 1000 end
+       | RErr, RErr => 0
+       | _, _ => 1000
+       end)
   end.
 
 Definition unmodelled (c : case) : bool :=
   match c with
   | CRange now sp ep sn _ _ => match parse_time_range TimeFmt.parse_ts now sp ep sn with RUnmodelled => true | _ => false end
   | CStep p s e _ _ => match parse_step p s e with DUnmodelled => true | _ => false end
+  | CCmd lo hi sp ep sn stp _ _ =>
+      match parse_time_range TimeFmt.parse_ts lo sp ep sn with
+      | ROk' s e => match parse_step stp s e with DUnmodelled => true | _ => false end
+      | RUnmodelled => true
+      | RErr => false
+      end
   end.
